@@ -1,7 +1,8 @@
-package c10
+package tscen
 
 import (
 	"testing"
+	"time"
 
 	"verif.local/ev"
 
@@ -10,17 +11,20 @@ import (
 	"verif/lib/nrun"
 )
 
-// serveWorker replaces nrun's worker loop (same protocol) with one that is
+// ServeWorker replaces nrun's worker loop (same protocol) with one that is
 // more tolerant of the nondeterminism engine N does not own (kfake map
 // iteration order when it answers several members at once, timers due at the
 // same virtual instant, goroutine order inside one event):
 //
-//   - a replayed prefix that diverges is retried up to 8 times (nrun: 3);
+//   - a replayed prefix that diverges is retried up to 16 times or 4 s of
+//     wall time (nrun: 3 times); a diverging replay stops at the first
+//     mismatching decision point, so a retry is cheap;
 //   - an execution that will be the parent of further jobs (its cost is below
-//     the budget) is run again and the schedule seen twice is reported, so
-//     that a rarely taken order does not become the parent of a whole subtree
-//     of jobs that then diverge. Any run with a violation is reported as is.
-func serveWorker(t *testing.T, plans []nrun.Plan) {
+//     the budget) is run up to five times and the most frequent schedule is
+//     reported, so that a rarely taken order does not become the parent of a
+//     whole subtree of jobs that then diverge. Any run with a violation is
+//     reported as is.
+func ServeWorker(t *testing.T, plans []nrun.Plan) {
 	by := map[string]*netctl.Scenario{}
 	budget := map[string]int{}
 	for _, p := range plans {
@@ -36,8 +40,9 @@ func serveWorker(t *testing.T, plans []nrun.Plan) {
 			return explore.Result{Crash: "unknown scenario " + job.Scenario}
 		}
 		run := func() explore.Result {
+			start := time.Now()
 			res := netctl.Run(t, sc, job)
-			for try := 0; res.Diverged && try < 7; try++ {
+			for try := 0; res.Diverged && try < 15 && time.Since(start) < 4*time.Second; try++ {
 				res = netctl.Run(t, sc, job)
 			}
 			return res
@@ -46,15 +51,40 @@ func serveWorker(t *testing.T, plans []nrun.Plan) {
 		if job.Cost >= budget[job.Scenario] || res.Diverged || len(res.Viol) > 0 || res.Crash != "" {
 			return res
 		}
-		res2 := run()
-		if len(res2.Viol) > 0 || sameSchedule(res, res2) {
-			return res2
+		// Parent of further jobs: report the most frequent schedule of up to
+		// five runs (stop as soon as one schedule was seen three times).
+		seen := []explore.Result{res}
+		votes := []int{1}
+		for n := 1; n < 5; n++ {
+			r := run()
+			if len(r.Viol) > 0 || r.Crash != "" {
+				return r
+			}
+			if r.Diverged {
+				continue
+			}
+			found := false
+			for i := range seen {
+				if sameSchedule(seen[i], r) {
+					votes[i]++
+					found = true
+					if votes[i] >= 3 {
+						return seen[i]
+					}
+				}
+			}
+			if !found {
+				seen = append(seen, r)
+				votes = append(votes, 1)
+			}
 		}
-		res3 := run()
-		if len(res3.Viol) > 0 || sameSchedule(res3, res2) {
-			return res3
+		best := 0
+		for i := range seen {
+			if votes[i] > votes[best] {
+				best = i
+			}
 		}
-		return res
+		return seen[best]
 	})
 }
 
